@@ -4,8 +4,8 @@
     [read_borrowed] the reader behind a borrowed-only type, [rocfl_read_pos] rocfl's
     reader for one inventory position, [create_object_cdir] the content directory names
     create_object accepts, [KnownC10.*] the recorded defect classes (json-escape-borrowed,
-    validator-json-escape, id-trimmed; the two content-directory classes were repaired in
-    /repo by d88c1da and their theorems are unconditional now). *)
+    validator-json-escape; the two content-directory classes were repaired in /repo by
+    d88c1da, the class id-trimmed by 031a721: their theorems are unconditional now). *)
 From Rocfl Require Import Base.Bytes Model.VersionNum Model.Json Model.KnownC10 Generated.Consts
   Proofs.JsonFacts Proofs.JsonPathFacts Proofs.JsonPosFacts.
 Open Scope N_scope.
@@ -83,7 +83,7 @@ Theorem C10_cp_no_wedge : forall dst src lp,
 Proof. exact cp_no_wedge. Qed.
 Print Assumptions C10_cp_no_wedge.
 
-(** create_object's acceptance of a content directory (repo.rs:572-583, after fix d88c1da):
+(** create_object's acceptance of a content directory (repo.rs:579-590, after fix d88c1da):
     validate_content_dir and not blank, not `inventory.json`, not beginning with `inventory.json.` *)
 Theorem C10_create_object_content_dir_accepts_exactly : forall cdir,
   create_object_cdir cdir = true <->
@@ -127,10 +127,27 @@ Theorem C10_content_dir_no_wedge : forall v cdir lp alg,
 Proof. exact accepted_cdir_no_wedge. Qed.
 Print Assumptions C10_content_dir_no_wedge.
 
+(** create_object's id (repo.rs:551-557, after fix 031a721): every accepted id is stored
+    exactly as given (no exception any more) ... *)
 Theorem C10_object_id_stored_as_given : forall id t,
-  create_object_id id = Ok t -> c10_id_trimmed id = false -> t = id.
+  create_object_id id = Ok t -> t = id.
 Proof. exact create_object_id_same. Qed.
 Print Assumptions C10_object_id_stored_as_given.
+
+(** ... an id is accepted exactly when it is not blank after trimming Unicode white space,
+    and refused (nothing stored) otherwise ... *)
+Theorem C10_object_id_accepted_iff_not_blank : forall id,
+  (is_empty (rust_trim id) = false /\ create_object_id id = Ok id) \/
+  (is_empty (rust_trim id) = true /\ create_object_id id = Err).
+Proof. exact create_object_id_total. Qed.
+Print Assumptions C10_object_id_accepted_iff_not_blank.
+
+(** ... and every later command reads back the very string that was given *)
+Theorem C10_object_id_roundtrip : forall id t,
+  create_object_id id = Ok t -> utf8_valid id = true ->
+  t = id /\ rocfl_read_pos PId (serde_escape t) = Some id.
+Proof. exact create_object_id_roundtrip. Qed.
+Print Assumptions C10_object_id_roundtrip.
 
 (** ** the excluded classes are genuine defects of the modelled code *)
 Theorem C10_rocfl_roundtrip_refuted : exists dst src lp,
@@ -148,11 +165,6 @@ Theorem C10_known_escape_class_always_wedges : forall dst src lp,
   rocfl_read_pos PLogicalPath (serde_escape lp) = None.
 Proof. exact cp_wedge. Qed.
 Print Assumptions C10_known_escape_class_always_wedges.
-
-Theorem C10_known_id_trimmed_refuted : forall id t,
-  create_object_id id = Ok t -> c10_id_trimmed id = true -> t <> id.
-Proof. exact create_object_id_differs. Qed.
-Print Assumptions C10_known_id_trimmed_refuted.
 
 Theorem C10_known_validator_escape_refuted : forall p s,
   c10_validator_needs_json_escape p s = true -> validator_read_pos p (serde_escape s) = None.
@@ -177,6 +189,11 @@ Theorem C10_before_fix_inventory_names_accepted : forall alg,
 Proof. exact before_fix_accepted_blank_and_inventory_names. Qed.
 Print Assumptions C10_before_fix_inventory_names_accepted.
 
+Theorem C10_before_fix_object_id_trimmed : forall id t,
+  create_object_id_before_fix id = Ok t -> rust_trim id <> id -> t <> id.
+Proof. exact create_object_id_before_fix_differs. Qed.
+Print Assumptions C10_before_fix_object_id_trimmed.
+
 (** ** Non-vacuity: the hypotheses are met by concrete inputs *)
 Example C10_nonvacuous_strings :
   utf8_valid (bs [97; 34; 92; 10; 1; 127; 240; 159; 152; 128]) = true /\
@@ -196,11 +213,18 @@ Example C10_nonvacuous_positions :
   c10_needs_json_escape PLogicalPath (b "d/x y.txt") = false /\
   rocfl_read_pos PLogicalPath (serde_escape (b "d/x y.txt")) = Some (b "d/x y.txt") /\
   (* an object id with a quote is an owned String: fine in the main reader, not in the validator *)
-  create_object_id (bs [97; 34; 98]) = Ok (bs [97; 34; 98]) /\ c10_id_trimmed (bs [97; 34; 98]) = false /\
+  create_object_id (bs [97; 34; 98]) = Ok (bs [97; 34; 98]) /\
   rocfl_read_pos PId (serde_escape (bs [97; 34; 98])) = Some (bs [97; 34; 98]) /\
   validator_read_pos PId (serde_escape (bs [97; 34; 98])) = None /\
-  (* trimmed id *)
-  create_object_id (b " ab ") = Ok (b "ab") /\ c10_id_trimmed (b " ab ") = true /\
+  (* ids with outer white space (blank, tab, newline, NBSP, U+3000) are stored as given; blank ids are refused *)
+  create_object_id (b " ab ") = Ok (b " ab ") /\ create_object_id_before_fix (b " ab ") = Ok (b "ab") /\
+  create_object_id (bs [9; 97; 10]) = Ok (bs [9; 97; 10]) /\
+  create_object_id (bs [194; 160; 97; 227; 128; 128]) = Ok (bs [194; 160; 97; 227; 128; 128]) /\
+  rocfl_read_pos PId (serde_escape (bs [9; 97; 10])) = Some (bs [9; 97; 10]) /\
+  create_object_id [] = Err /\ create_object_id (b "   ") = Err /\ create_object_id (bs [9; 10; 11; 12; 13; 32]) = Err /\
+  create_object_id (bs [194; 160]) = Err /\ create_object_id (bs [226; 128; 168; 227; 128; 128; 194; 133]) = Err /\
+  (* U+200B ZERO WIDTH SPACE and 0x1F are not White_Space *)
+  create_object_id (bs [226; 128; 139]) = Ok (bs [226; 128; 139]) /\ create_object_id (bs [31]) = Ok (bs [31]) /\
   (* content paths *)
   rocfl_read_pos PContentPath (serde_escape (content_path (mkV 1 0) (b "content") (b "d/f.txt")))
     = Some (b "v1/content/d/f.txt") /\
